@@ -17,8 +17,7 @@ Proof.
   intros c W MB. destruct (wf_parts c W) as [LIM WS].
   unfold run_call. unfold moves_bytes in MB. destruct (c_shape c) as [d|d fl| |] eqn:SH; try discriminate.
   - assert (L1 : c_lens c = [hd O (c_lens c)]).
-    { unfold wf, wf_input in W. rewrite SH in W. apply andb_true_iff in W as [W _].
-      apply andb_true_iff in W as [_ W].
+    { unfold wf, wf_input in W. rewrite SH in W. apply andb_true_iff in W as [_ W].
       destruct (c_lens c) as [|a [|b t]]; cbn in W; try discriminate. reflexivity. }
     pose proof (run_buf_ok d c WS) as B.
     destruct (run_buf d (c_limit c) (hd O (c_lens c)) (c_script c) (init_st c)) as [[r| |] s]; try contradiction.
@@ -42,18 +41,32 @@ Proof.
 Qed.
 
 Lemma no_defect_parts : forall c, no_defect c = true ->
-  no_connect_eintr c = true /\ (c_nb c = true -> s_waits (snd (run_call c)) = []).
+  c_nb c = true -> s_waits (snd (run_call c)) = [].
 Proof.
-  intros c H. unfold no_defect, defect_nonblocking_fd_waits in H. apply andb_true_iff in H as [H1 H2].
-  split; [exact H1|]. intros N. rewrite N in H2. cbn [andb] in H2.
+  intros c H N. unfold no_defect, defect_nonblocking_fd_waits in H.
+  rewrite N in H. cbn [andb] in H.
   destruct (s_waits (snd (run_call c))); [reflexivity | discriminate].
 Qed.
 
-(** C18 outside the two recorded findings *)
-Theorem ok_C18_outside : forall c, wf_input c = true -> no_defect c = true -> ok_C18 c (run_obs c) = true.
+(** every accepted call returns, whatever the entry point (in particular an interrupted connect) *)
+Theorem every_call_returns : forall c, wf c = true -> exists o, run_obs c = RObs o.
 Proof.
-  intros c WI ND. destruct (no_defect_parts c ND) as [NE NW].
-  assert (W : wf c = true) by (unfold wf; now rewrite WI, NE).
+  intros c W. destruct (moves_bytes c) eqn:MB.
+  - destruct (run_final c W MB) as (r & s & E & _). unfold run_obs. rewrite E. eexists. reflexivity.
+  - destruct (wf_parts c W) as [LIM _]. unfold run_obs, run_call. unfold moves_bytes in MB.
+    destruct (c_shape c) eqn:SH; try discriminate.
+    + pose proof (run_accept_ok c) as B.
+      destruct (run_accept (c_limit c) (c_script c) (init_st c)) as [[r| |] s]; try contradiction.
+      eexists. reflexivity.
+    + pose proof (run_connect_ok c LIM) as B.
+      destruct (run_connect (c_limit c) (c_script c) (init_st c)) as [[r| |] s]; try contradiction.
+      eexists. reflexivity.
+Qed.
+
+(** C18 outside the recorded finding *)
+Theorem ok_C18_outside : forall c, wf c = true -> no_defect c = true -> ok_C18 c (run_obs c) = true.
+Proof.
+  intros c W ND. pose proof (no_defect_parts c ND) as NW.
   destruct (moves_bytes c) eqn:MB.
   - destruct (run_final c W MB) as (r & s & E & F). unfold run_obs. rewrite E in *. cbn [ok_C18].
     apply final_C18; assumption.
@@ -62,39 +75,52 @@ Proof.
     + pose proof (run_accept_ok c) as B.
       destruct (run_accept (c_limit c) (c_script c) (init_st c)) as [[r| |] s]; try contradiction.
       cbn [ok_C18]. apply final18_C18; [rewrite SH; exact B | exact NW].
-    + assert (NE' : forallb no_eintr (firstn 1 (c_script c)) = true).
-      { unfold no_connect_eintr in NE. rewrite SH in NE. exact NE. }
-      pose proof (run_connect_ok c LIM NE') as B.
+    + pose proof (run_connect_ok c LIM) as B.
       destruct (run_connect (c_limit c) (c_script c) (init_st c)) as [[r| |] s]; try contradiction.
       cbn [ok_C18]. apply final18_C18; [rewrite SH; exact B | exact NW].
 Qed.
 
-(** every hooked call that returns leaves the blocking mode as the caller set it: all ten entry
-    points, every accepted input (the interrupted connect never returns) *)
-Theorem mode_restored : forall c o, wf_input c = true -> run_obs c = RObs o -> o_nb_after o = c_nb c.
+(** every hooked call leaves the blocking mode as the caller set it: all ten entry points, every
+    accepted input (every such call returns: [every_call_returns]) *)
+Theorem mode_restored : forall c o, wf c = true -> run_obs c = RObs o -> o_nb_after o = c_nb c.
 Proof.
-  intros c o WI E.
+  intros c o W E.
+  destruct (wf_parts c W) as [LIM WS].
+  destruct (moves_bytes c) eqn:MB.
+  - destruct (run_final c W MB) as (r & s & E2 & F). unfold run_obs in E. rewrite E2 in E.
+    inversion E; subst o. cbn [o_nb_after]. eapply final_mode; exact F.
+  - unfold run_obs, run_call in E. unfold moves_bytes in MB.
+    destruct (c_shape c) eqn:SH; try discriminate.
+    + pose proof (run_accept_ok c) as B.
+      destruct (run_accept (c_limit c) (c_script c) (init_st c)) as [[r| |] s]; try contradiction.
+      inversion E; subst o. exact (proj1 B).
+    + pose proof (run_connect_ok c LIM) as B.
+      destruct (run_connect (c_limit c) (c_script c) (init_st c)) as [[r| |] s]; try contradiction.
+      inversion E; subst o. exact (proj1 B).
+Qed.
+
+(** the repaired [connect_eintr_spins]: a hooked connect whose inner call is interrupted used to spin
+    for ever; it now waits once for writability, returns, and restores the mode *)
+Theorem old_connect_eintr_spins : forall c, wf_input c = true -> connect_interrupted c = true ->
+  fst (old_run_connect (c_limit c) (c_script c) (init_st c)) = OStuck.
+Proof.
+  intros c WI CI. apply old_run_connect_eintr_stuck; [|exact CI].
+  unfold wf_input in WI. repeat (apply andb_true_iff in WI as [WI ?]). lia.
+Qed.
+
+Theorem connect_eintr_returns : forall c, wf_input c = true -> c_shape c = SConnect ->
+  connect_interrupted c = true ->
+  exists o, run_obs c = RObs o /\ List.length (o_waits o) = 1%nat /\ o_nb_after o = c_nb c.
+Proof.
+  intros c WI SH CI.
   assert (LIM : 1 <= c_limit c).
   { unfold wf_input in WI. repeat (apply andb_true_iff in WI as [WI ?]). lia. }
-  destruct (no_connect_eintr c) eqn:NE.
-  - assert (W : wf c = true) by (unfold wf; now rewrite WI, NE).
-    destruct (wf_parts c W) as [_ WS].
-    destruct (moves_bytes c) eqn:MB.
-    + destruct (run_final c W MB) as (r & s & E2 & F). unfold run_obs in E. rewrite E2 in E.
-      inversion E; subst o. cbn [o_nb_after]. eapply final_mode; exact F.
-    + unfold run_obs, run_call in E. unfold moves_bytes in MB.
-      destruct (c_shape c) eqn:SH; try discriminate.
-      * pose proof (run_accept_ok c) as B.
-        destruct (run_accept (c_limit c) (c_script c) (init_st c)) as [[r| |] s]; try contradiction.
-        inversion E; subst o. exact (proj1 B).
-      * unfold no_connect_eintr in NE. rewrite SH in NE.
-        pose proof (run_connect_ok c LIM NE) as B.
-        destruct (run_connect (c_limit c) (c_script c) (init_st c)) as [[r| |] s]; try contradiction.
-        inversion E; subst o. exact (proj1 B).
-  - exfalso. unfold no_connect_eintr in NE. unfold run_obs, run_call in E.
-    destruct (c_shape c) eqn:SH; try discriminate.
-    pose proof (run_connect_eintr_stuck c LIM NE) as ST.
-    destruct (run_connect (c_limit c) (c_script c) (init_st c)) as [o' s]. cbn [fst] in ST. subst o'. discriminate.
+  destruct (run_connect_eintr_waits c LIM CI) as (r & s & E & WL).
+  assert (RO : run_obs c = RObs (mkObs r (if r =? -1 then s_errno s else 0) (s_reqs s)
+                                      (data_of c (s_moved s)) (s_waits s) (s_nb s) false)).
+  { unfold run_obs, run_call. rewrite SH, E. reflexivity. }
+  eexists. split; [exact RO|]. split; [exact WL|].
+  exact (mode_restored c _ WI RO).
 Qed.
 
 (** a zero-length request returns 0 (and makes no kernel call that moves anything) *)
